@@ -498,6 +498,70 @@ func (c *Gen) Sentinel(k byte) ([]byte, string) {
 	return c.buildARP(src, 6, 4, true), ip
 }
 
+// EdgePortFrames builds plain replies of a TCP scan (source inside the subnet, the scan's own flags) whose SOURCE PORT
+// sits at the ends of the port space (0, 1, 2, 65534, 65535) and at/next to every edge of the scanned ranges
+// (start-1, start, start+1, end-1, end, end+1). At most max frames; 0, 1, 65535 are always among them. The class
+// names the port's place ("sport-0", "sport-1", "sport-65535", "sport-edge") and whether it is a scanned port.
+func (c *Gen) EdgePortFrames(max int) ([][]byte, []string) {
+	var vs []int
+	seen := map[int]bool{}
+	add := func(v int) {
+		if v >= 0 && v <= 65535 && !seen[v] {
+			seen[v] = true
+			vs = append(vs, v)
+		}
+	}
+	for _, v := range []int{0, 1, 65535} {
+		add(v)
+	}
+	var rest []int
+	for _, p := range c.ports {
+		rest = append(rest, p[0]-1, p[0], p[0]+1, p[1]-1, p[1], p[1]+1)
+	}
+	rest = append(rest, 2, 65534)
+	// random order, so that a cap keeps a different part of a long list in every run
+	for i := len(rest) - 1; i > 0; i-- {
+		j := c.g.R.Intn(i + 1)
+		rest[i], rest[j] = rest[j], rest[i]
+	}
+	for _, v := range rest {
+		if len(vs) < max {
+			add(v)
+		}
+	}
+	var fs [][]byte
+	var cl []string
+	for _, v := range vs {
+		s := c.goodTCP()
+		s.sport = uint16(v)
+		switch c.g.R.Intn(4) {
+		case 0:
+			s.tcpOpts = []byte{2, 4, 5, 0xb4}
+		case 1:
+			s.payload = c.g.R.Bytes(c.g.R.Intn(12))
+		}
+		name := "sport-edge"
+		switch v {
+		case 0, 1, 65535:
+			name = fmt.Sprintf("sport-%d", v)
+		}
+		in := len(c.ports) == 0
+		for _, p := range c.ports {
+			if v >= p[0] && v <= p[1] {
+				in = true
+			}
+		}
+		if in {
+			name += "-scanned"
+		} else {
+			name += "-not-scanned"
+		}
+		fs = append(fs, c.buildTCP(s))
+		cl = append(cl, name)
+	}
+	return fs, cl
+}
+
 // SetRange makes the generator work relative to an explicit range (replays).
 func (c *Gen) SetRange(subnet string, ports [][2]int) {
 	c.ports = ports
